@@ -465,12 +465,21 @@ class PlanJoinTablesQuery:
         conditions = []
         data_conditions = []
 
-        def _check_conditions(node, **kwargs):
+        def _collect_binary_ops(node, **kwargs):
+            if isinstance(node, BinaryOperation) and node.op != '=':
+                binary_ops.add(node.op.lower())
+
+        def _check_conditions(node):
             if not isinstance(node, BinaryOperation):
                 return
 
+            if node.op == 'and':
+                # only a top-level conjunct of the condition can be used as a filter on its own
+                for arg in node.args:
+                    _check_conditions(arg)
+                return
+
             if node.op != '=':
-                binary_ops.add(node.op.lower())
                 return
 
             arg1, arg2 = node.args
@@ -489,7 +498,8 @@ class PlanJoinTablesQuery:
             elif table2 is not None:
                 data_conditions.append([arg1, arg2])
 
-        query_traversal(fetch_table.join_condition, _check_conditions)
+        query_traversal(fetch_table.join_condition, _collect_binary_ops)
+        _check_conditions(fetch_table.join_condition)
 
         binary_ops.discard('and')
         if len(binary_ops) > 0:
